@@ -48,6 +48,8 @@ def step (st : St) (op res : String) : St × List String :=
   | ["rsetup", s, e, lease] =>
     match ip4 s, ip4 e, lease.toInt? with
     | some s, some e, some l =>
+      -- `setupRange` keeps the lease time rounded to whole seconds (D19)
+      let l := keptLease l
       match RState.setup s e l [] some id with
       | .ok m => ({ cfg := some ⟨s, e, l⟩, s := m, bound := [] },
                   "br:rsetup.ok" :: (if res == "ok" then [] else ["DIVERGE dom model=ok"]))
